@@ -392,14 +392,21 @@ impl BigDec {
     pub fn representable(&self) -> bool {
         self.stripped().fits()
     }
-    /// |self| exceeds the largest representable magnitude (2^96 - 1)
+    /// |self| >= 2^96 - 1/2: no rounding can bring the value into the representable range
+    /// (values between MAX and MAX + 1/2 may legitimately round to MAX and are not counted)
     pub fn magnitude_overflows(&self) -> bool {
-        let max = BigDec {
+        // 2 * |self| >= 2^97 - 1
+        let twice = BigDec {
             neg: false,
-            mant: Big::max96(),
+            mant: self.mant.mul_small(2),
+            scale: self.scale,
+        };
+        let limit = BigDec {
+            neg: false,
+            mant: Big::from_u128((1u128 << 97) - 1),
             scale: 0,
         };
-        self.abs().cmp_value(&max) == Ordering::Greater
+        twice.cmp_value(&limit) != Ordering::Less
     }
     pub fn is_integral(&self) -> bool {
         self.stripped().scale == 0
@@ -468,6 +475,8 @@ mod tests {
         assert!(d("-0.0").eq_value(&d("0")));
         assert_eq!(d("79228162514264337593543950335").add(&d("1")).to_text(), "79228162514264337593543950336");
         assert!(d("79228162514264337593543950336").magnitude_overflows());
+        assert!(d("79228162514264337593543950335.5").magnitude_overflows());
+        assert!(!d("79228162514264337593543950335.4").magnitude_overflows());
         assert!(!d("79228162514264337593543950335").magnitude_overflows());
         assert!(d("79228162514264337593543950335").fits());
         assert_eq!(d("123456789012345678901234567890").mant.to_dec_string(), "123456789012345678901234567890");
